@@ -93,6 +93,10 @@ def check(repo: Repo, run: Run) -> None:
     # likewise the other c7nlib helpers the emitted text calls for value_type / op (normalize, unique_size, intersect,
     # difference, present/absent, key, parse_cidr, version ...): instances shared with C17.X4
     run.borrow(repo, "C17", "C19.V9", lambda o: o["rule"] == "C17.X4", 10)
+    # V10: `value_type: integer` is emitted as int(<resource value>): the relation the op names is computed on the
+    # number the text denotes in decimal (or 0x hex) -- the text arms of the integer constructors (shared with
+    # C10.R1/R3)
+    run.borrow(repo, "C10", "C19.V10", lambda o: o["rule"] in ("C10.R1", "C10.R3") and "IntType" in o["key"], 2)
     # V1 -----------------------------------------------------------------
     aom = None
     for n in cls.body:
